@@ -1,6 +1,6 @@
 use super::Context;
 use super::riscvdata::{Template, Command, Relocation, ROUNDMODE_MAP, FENCESPEC_MAP, CSR_MAP, FP_IMM_IDENT_MAP, FP_IMM_VALUE_MAP};
-use super::ast::{MatchData, FlatArg, RegListFlat, Register};
+use super::ast::{MatchData, FlatArg, RegListFlat, Register, RegFamily};
 
 use syn::spanned::Spanned;
 use quote::{quote, quote_spanned};
@@ -121,7 +121,19 @@ pub(super) fn compile_instruction(ctx: &mut Context, data: MatchData) -> Result<
                 statics.push((offset, u32::from(code)));
             },
 
-            FlatArg::Register { span, reg: Register::Dynamic(_, ref expr) } => match *command {
+            FlatArg::Register { span, reg: Register::Dynamic(family, ref expr) } => match *command {
+                // RV32E/RV64E only define 16 integer registers
+                Command::R(offset) if ctx.target.is_embedded() && family == RegFamily::INTEGER => {
+                    dynamics.push((offset, quote_spanned!{ span=>
+                        {
+                            let _dyn_reg: u8 = #expr;
+                            if (_dyn_reg & 0xF0) != 0 {
+                                ::dynasmrt::riscv::invalid_register(_dyn_reg);
+                            }
+                            (_dyn_reg & 0x1F) as u32
+                        }
+                    }));
+                },
                 Command::R(offset) => {
                     dynamics.push((offset, quote_spanned!{ span=>
                         ((#expr & 0x1F) as u32)
@@ -225,8 +237,10 @@ pub(super) fn compile_instruction(ctx: &mut Context, data: MatchData) -> Result<
                         statics.push((offset, u32::from(*c)));
                     },
                     RegListFlat::Dynamic(expr) => {
+                        // RV32E/RV64E only define s0 and s1
+                        let max_count: u32 = if ctx.target.is_embedded() { 2 } else { 12 };
                         if let Some(static_value) = as_signed_number(expr) {
-                            if static_value < 0 || (static_value > 10 && static_value != 12) {
+                            if static_value < 0 || (static_value > 10 && static_value != 12) || static_value > i64::from(max_count) {
                                 emit_error!(expr, "Impossible register list");
                                 return Err(None);
                             }
@@ -246,7 +260,7 @@ pub(super) fn compile_instruction(ctx: &mut Context, data: MatchData) -> Result<
                             dynamics.push((offset, quote_spanned!{ span=>
                                 {
                                     let _dyn_reg: u32 = #expr;
-                                    if _dyn_reg == 11 || _dyn_reg > 12 {
+                                    if _dyn_reg == 11 || _dyn_reg > #max_count {
                                         ::dynasmrt::riscv::invalid_register(_dyn_reg as u8);
                                     }
                                     (_dyn_reg + if (_dyn_reg == 12) { 3 } else { 4 }) & 0xF
